@@ -66,7 +66,7 @@ def plan(tier, seed):
 
 
 ALPHA = {
-    'build': 8, 'var': 2, 'cube': 3, 'apply': 8, 'funcop': 4, 'not': 1,
+    'build': 8, 'repeat': 5, 'var': 2, 'cube': 3, 'apply': 8, 'funcop': 4, 'not': 1,
     'ite': 4, 'quantify': 4, 'let_const': 2, 'let_rename': 3,
     'let_compose': 4, 'add_expr': 3, 'to_expr': 1, 'drop': 5, 'gc': 1,
     'sift': 1, 'reorder_to': 1, 'declare': 1, 'traverse': 1,
